@@ -198,6 +198,32 @@ func run(c *lib.Ctx) error {
 			}
 		}
 	}
+	nPrefix := len(pres)
+	// other texts (not prefixes of valid programs): one token inserted into a valid program, and all
+	// strings of up to 3 tokens over a small alphabet. Only the second sentence of the statement
+	// (a partial error starts at the very end) and the error ranges are judged on them.
+	junk := []string{"|", "&", ";", "(", ")", "[", "]", "{", "}", "<", ">", "$", "'", "\"", "\\", "^", "#", "\n", " ", "a", "é"}
+	perm := c.Rand.Perm(len(progs))
+	for j := 0; j < len(perm) && j < c.Pick(150, 3000); j++ {
+		p := progs[perm[j]]
+		for _, i := range syn.Boundaries(p) {
+			q := p[:i] + junk[c.Rand.Intn(len(junk))] + p[i:]
+			if !preSeen[q] && !progSeen[q] {
+				preSeen[q] = true
+				pres = append(pres, pre{q, ""})
+			}
+		}
+	}
+	for _, a := range junk {
+		for _, b := range append([]string{""}, junk...) {
+			for _, d := range append([]string{""}, junk...) {
+				if q := a + b + d; !preSeen[q] && !progSeen[q] {
+					preSeen[q] = true
+					pres = append(pres, pre{q, ""})
+				}
+			}
+		}
+	}
 	areaEvery := len(pres)/c.Pick(3000, 30000) + 1
 	cases := make([]pcase, len(pres))
 	var recErr error
@@ -207,7 +233,7 @@ func run(c *lib.Ctx) error {
 		if i%areaEvery == 0 {
 			a = ar
 		}
-		pc, err := record(pres[i].text, true, pres[i].of, a)
+		pc, err := record(pres[i].text, i < nPrefix, pres[i].of, a)
 		if err != nil {
 			mu.Lock()
 			if recErr == nil {
@@ -221,8 +247,15 @@ func run(c *lib.Ctx) error {
 		return recErr
 	}
 	c.AddEvals(2*len(cases) + len(progs))
-	var withErr, clean, driven, newlines int
+	var withErr, clean, driven, newlines, others int
 	for i, pc := range cases {
+		if !pc.Prefix {
+			others++
+			if pc.Area >= 0 {
+				driven++
+			}
+			continue
+		}
 		if len(pc.Errs) > 0 {
 			withErr++
 			c.Distinct(pc.text)
@@ -240,9 +273,9 @@ func run(c *lib.Ctx) error {
 		}
 		_ = i
 	}
-	c.Set("prefixes", map[string]int{"distinct": len(cases), "with_errors": withErr, "clean_unspecified": clean,
+	c.Set("prefixes", map[string]int{"distinct": nPrefix, "other_texts_judged_for_partial_at_end": others, "with_errors": withErr, "clean_unspecified": clean,
 		"enter_inserts_newline": newlines, "driven_through_real_code_area": driven})
-	c.Logf("%d distinct prefixes (%d with errors, %d clean), %d driven through the real code area", len(cases), withErr, clean, driven)
+	c.Logf("%d distinct prefixes (%d with errors, %d clean), %d other texts, %d driven through the real code area", nPrefix, withErr, clean, others, driven)
 
 	bad, err := lib.Judge(c, "JudgeSmartEnter", dir, "JudgeSmartEnter", cases, 6, 12*time.Minute)
 	if err != nil {
@@ -266,8 +299,12 @@ func report(c *lib.Ctx, cases []pcase, bad []lib.BadCase) {
 				why = s
 			}
 		}
-		c.Reject("prefix:"+why, fmt.Sprintf("prefix %q of valid program %q: errors %+v, Enter inserts newline = %v, code area = %d: %s", pc.text, pc.of, pc.Errs, pc.Enter, pc.Area, why),
-			map[string]any{"text": []byte(pc.text), "of": []byte(pc.of)})
+		kind := "prefix"
+		if !pc.Prefix {
+			kind = "text"
+		}
+		c.Reject(kind+":"+why, fmt.Sprintf("%q (prefix of valid program %q): errors %+v, Enter inserts newline = %v, code area = %d: %s", pc.text, pc.of, pc.Errs, pc.Enter, pc.Area, why),
+			map[string]any{"text": []byte(pc.text), "of": []byte(pc.of), "prefix": pc.Prefix})
 	}
 }
 
@@ -278,8 +315,9 @@ func replay(c *lib.Ctx, dir string) error {
 	}
 	var f struct {
 		Case struct {
-			Text []byte `json:"text"`
-			Of   []byte `json:"of"`
+			Text   []byte `json:"text"`
+			Of     []byte `json:"of"`
+			Prefix bool   `json:"prefix"`
 		} `json:"case"`
 	}
 	if err := json.Unmarshal(b, &f); err != nil {
@@ -289,7 +327,7 @@ func replay(c *lib.Ctx, dir string) error {
 	if err != nil {
 		return err
 	}
-	pc, err := record(string(f.Case.Text), true, string(f.Case.Of), ar)
+	pc, err := record(string(f.Case.Text), f.Case.Prefix, string(f.Case.Of), ar)
 	if err != nil {
 		return err
 	}
